@@ -11,6 +11,7 @@ import (
 	"strconv"
 	"strings"
 	"testing"
+	"time"
 
 	"github.com/google/mtail/internal/logline"
 	"github.com/google/mtail/internal/tailer/logstream"
@@ -113,7 +114,7 @@ func logLinesFor(name string) int64 {
 }
 
 func runC15(c c15Case, countCheck bool) *vstat.Failure {
-	return vstat.Catch(func() *vstat.Failure { return runC15x(c, countCheck) })
+	return vstat.CatchBounded(60*time.Second, func() *vstat.Failure { return runC15x(c, countCheck) })
 }
 
 func runC15x(c c15Case, countCheck bool) *vstat.Failure {
